@@ -157,13 +157,14 @@ func (l *listener) json() string {
 
 // battle wraps one real simulator and its recording state
 type battle struct {
-	cfg  simCfg
-	sim  gmars.ReportingSimulator
-	ws   []gmars.Warrior
-	prev []ins
-	lis  *listener
-	rec  *gmars.StateRecorder
-	full bool // record whole-core diffs and recorder (small cores)
+	cfg     simCfg
+	sim     gmars.ReportingSimulator
+	ws      []gmars.Warrior
+	prev    []ins
+	lis     *listener
+	rec     *gmars.StateRecorder
+	full    bool // record whole-core diffs and recorder (small cores)
+	hugeOff gmars.Address
 }
 
 func newBattle(c simCfg, withReports bool) (b *battle, errs string) {
@@ -191,6 +192,9 @@ func newBattle(c simCfg, withReports bool) (b *battle, errs string) {
 	}
 	return b, ""
 }
+
+// rounds2: recorded battles may be followed by a second round on the same simulator (Reset, respawn, fight)
+var rounds2 = false
 
 // recordReads: the bundled recorder is switched to also record read accesses (set by the battles command)
 var recordReads = false
@@ -282,6 +286,18 @@ func (b *battle) add(w wdata) string {
 	return fmt.Sprintf(`{"ev":"add","code":%s,"start":%d}`, insListJSON(w.code), w.start)
 }
 
+// spawnHuge spawns at the largest 64-bit offset congruent to off modulo the core size; the event records the
+// reduced offset (the harness's own modular arithmetic) and marks it
+func (b *battle) spawnHuge(i, off int) string {
+	m := uint64(b.cfg.M)
+	maxv := ^uint64(0)
+	big := maxv - (maxv-uint64(off%b.cfg.M))%m
+	b.hugeOff = gmars.Address(big)
+	l := b.spawn(i, off%b.cfg.M)
+	b.hugeOff = 0
+	return l[:len(l)-1] + `,"offbig":1}`
+}
+
 func (b *battle) spawn(i, off int) (line string) {
 	errv, pan := 0, ""
 	if b.lis != nil {
@@ -293,7 +309,11 @@ func (b *battle) spawn(i, off int) (line string) {
 				pan = fmt.Sprint(e)
 			}
 		}()
-		if err := b.sim.SpawnWarrior(i, gmars.Address(off)); err != nil {
+		o := gmars.Address(off)
+		if b.hugeOff != 0 {
+			o = b.hugeOff
+		}
+		if err := b.sim.SpawnWarrior(i, o); err != nil {
 			errv = 1
 		}
 	}()
@@ -452,9 +472,32 @@ func recordBattle(r *rand.Rand, cfg simCfg, ws []wdata, offs []int, reports bool
 	if len(ws) >= 3 {
 		st.many++
 	}
-	for k := 0; k < extra; k++ { // stepping a finished battle (C13)
+	for k := 0; k < extra; k++ { // stepping a finished battle: nothing may happen any more
 		line, _, _ := b.cycle()
 		lines = append(lines, line)
+	}
+	if rounds2 && r.Intn(3) == 0 {
+		// the simulator is reused for another round: Reset (sometimes straight after a spawn, before any task ran),
+		// respawn at other places, fight again
+		lines = append(lines, b.reset())
+		if r.Intn(3) == 0 {
+			lines = append(lines, b.spawn(0, r.Intn(3*cfg.M)))
+			lines = append(lines, b.reset())
+		}
+		for i := range ws {
+			lines = append(lines, b.spawn(i, r.Intn(2*cfg.M)))
+		}
+		for c := 0; c < 30 && b.inProgress(); c++ {
+			line, _, pan := b.cycle()
+			lines = append(lines, line)
+			st.cycles++
+			if pan != "" {
+				break
+			}
+		}
+		line, _, _ := b.cycle() // one more call whatever the state: a no-op unless the battle is still in progress
+		lines = append(lines, line)
+		twin = false
 	}
 	if twin {
 		t, _ := newBattle(cfg, false)
@@ -504,14 +547,16 @@ func cmdBattles(args []string) {
 	reports := fs.Bool("reports", false, "attach listener and state recorder (C15)")
 	twin := fs.Bool("twin", true, "also Run() a twin simulator")
 	hostile := fs.Bool("hostile", false, "fully random instruction values")
-	extra := fs.Int("extra", 0, "extra RunCycle calls after the battle ended")
+	extra := fs.Int("extra", 1, "extra RunCycle calls after the battle ended (must be no-ops)")
 	maxw := fs.Int("maxw", 4, "max warriors")
 	real := fs.Int("real", 0, "additional battles between repository warriors on the 8000-cell core")
 	realCycles := fs.Int("realcycles", 300, "cycle limit of those battles")
 	repo := fs.String("repo", "/repo", "repository root")
 	reads := fs.Bool("reads", false, "with -reports: switch the StateRecorder to record reads as well")
+	second := fs.Bool("rounds", true, "a third of the battles is followed by a second round on the same simulator (Reset, respawn)")
 	fs.Parse(args)
 	recordReads = *reads
+	rounds2 = *second
 	r := rand.New(rand.NewSource(*seed))
 	w := newShardWriter(*out, *shards)
 	ms := parseInts(*msFlag)
@@ -523,7 +568,11 @@ func cmdBattles(args []string) {
 		var offs []int
 		for i := 0; i < nw; i++ {
 			ws = append(ws, genWarrior(r, cfg.M, *hostile))
-			offs = append(offs, r.Intn(cfg.M))
+			if r.Intn(4) == 0 {
+				offs = append(offs, r.Intn(3*cfg.M)) // offsets at and beyond the core size
+			} else {
+				offs = append(offs, r.Intn(cfg.M))
+			}
 		}
 		for _, l := range recordBattle(r, cfg, ws, offs, *reports, *twin, *extra, st) {
 			w.line(l)
